@@ -6,6 +6,7 @@ import FunModel.Drv.C18
 import FunModel.Drv.C02
 import FunModel.Drv.C14
 import FunModel.Drv.C05
+import FunModel.Drv.C10
 
 /-! Line-protocol driver: `driver <property>` reads one S-expression per line on stdin and prints
     the model's observation for it on one line. Core Lean only (no Mathlib) so it links. -/
@@ -19,6 +20,7 @@ def handlerFor : String → Option (Sexp → String)
   | "C02" => some DrvC02.handle
   | "C14" => some DrvC14.handle
   | "C05" => some DrvC05.handle
+  | "C10" => some DrvC10.handle
   | "C07" => some DrvC05.handle
   | "C20" => some DrvC05.handle
   | "C17" => some DrvC16.handle
